@@ -218,6 +218,14 @@ func RandValue(r *rand.Rand, depth int) *JV {
 	case 1:
 		return &JV{Kind: 'b', B: r.Intn(2) == 0}
 	case 2, 3:
+		if r.Intn(8) == 0 {
+			// an integer literal with all its digits, beyond 2^53: not a double, must come out in the ES6 form
+			v := r.Int63()>>uint(r.Intn(10)) | 1<<53
+			if r.Intn(2) == 0 {
+				v = -v
+			}
+			return &JV{Kind: 'f', F: float64(v), Lit: strconv.FormatInt(v, 10)}
+		}
 		return &JV{Kind: 'f', F: InterestingFloat(r)}
 	case 4:
 		return &JV{Kind: 's', S: RandString(r, 12)}
